@@ -1239,7 +1239,7 @@ class Snapshot:
 
 
 def snap_value(v):
-    if isinstance(v, SList):
+    if isinstance(v, (SList, SChunks)):
         return v.copy()
     if isinstance(v, list):
         return [snap_value(e) for e in v]
@@ -1268,6 +1268,15 @@ class SChunks:
 
     def copy(self):
         return SChunks(self.joined, self.kind)
+
+    def __add__(self, o):
+        return SChunks(self.joined + joined(o, self.kind), self.kind)
+
+    def __radd__(self, o):
+        return SChunks(joined(o, self.kind) + self.joined, self.kind)
+
+    def __bool__(self):
+        return ctx().decide(as_bool_term(slen(self.joined) > 0)) if is_sym(self.joined) else bool(self.joined)
 
     def __repr__(self):
         return "SChunks(%r)" % (self.joined,)
